@@ -19,6 +19,19 @@ class Warehouse:
         return self.size
 
 
+class Node:
+    """Fields that are only assertable through isinstance / len (an object, a list of floats)."""
+
+    def __init__(self, value: int = 0) -> None:
+        self.value = value
+        self.next: "Node | None" = None
+        self.weights = [0.5, 1.5]
+
+    def link(self, other: "Node") -> "Node":
+        self.next = other
+        return self
+
+
 def make() -> Warehouse:
     return Warehouse(3)
 
